@@ -210,8 +210,30 @@ impl Prop for C17Prop {
             scn.text = format!(
                 "procedure   {id};\nbegin\n  S:='{b}text'  +  Foo( {id},1 ,2);   //{c}note\n  if  X   then   Bar;{{ {d} }}\nend;\n"
             );
-            if t.chance(1, 6) {
-                scn.text = format_with(&cfg, &scn.text); // already formatted
+            // other shapes of text: grammar-generated programs, texts that start or end
+            // unusually, U+FEFF as an ordinary character (after a BOM it is text, not a BOM)
+            match t.below(12) {
+                0 | 1 => {
+                    if let Some(w) = crate::props::wf::wf_generate("prog", t, true) {
+                        if representable(enc, &w.input) {
+                            scn.text = w.input;
+                        }
+                    }
+                }
+                2 => scn.text = format_with(&cfg, &scn.text), // already formatted
+                3 => scn.text = format!("//{c}first line is a comment\n{}", scn.text),
+                4 => scn.text = scn.text.trim_end().to_string(), // no final line break
+                5 => scn.text = scn.text.replace('\n', "\r\n"),
+                6 if scn.bom != "none" && representable(enc, "\u{feff}") => {
+                    // doubled BOM: the second U+FEFF is the first character of the text
+                    scn.text = format!("{}{}", '\u{feff}', scn.text);
+                }
+                7 if representable(enc, "\u{feff}") => {
+                    scn.text = scn.text.replacen("begin", "begin  X\u{feff}Y;", 1);
+                }
+                8 => scn.text = String::new(),
+                9 => scn.text = format!("{}{}", scn.text, scn.text.repeat(t.below(30) as usize)),
+                _ => {}
             }
             if !representable(enc, &scn.text) {
                 return None;
